@@ -103,6 +103,7 @@ class Engine:
         self.trail = []              # short textual trace of decisions
         self.cfg = None
         self.hash_log = []
+        self.hash_recording = False
         self.round_log = []
         self.markers = []
         self.n_concretised = 0
@@ -298,6 +299,36 @@ class Engine:
         without division (d = x - m*y compared with y)"""
         from . import proxies as P
         return _fb(P.div_round_spec(mode, P.SymInt._l(m), P.SymInt._l(x), P.SymInt._l(y)))
+
+    def hash_of(self, obj):
+        """hash(obj) with the symbolic numbers it hashed recorded (DESIGN 3.2):
+        -> (concrete residue, tuple of z3 terms in hashing order)"""
+        # cached hashes of terms were computed outside the recording: drop them (harness-level reset of
+        # a private cache; stale-cache behaviour is therefore outside this device, see DESIGN 3.2)
+        for t in (obj, getattr(obj, '_normalized', None)):
+            if t is not None and type(t).__name__ == 'Term' and hasattr(t, '_hash'):
+                try:
+                    del t._hash
+                except AttributeError:
+                    pass
+        self.hash_log = []
+        self.hash_recording = True
+        try:
+            h = hash(obj)
+        finally:
+            self.hash_recording = False
+        terms = tuple(self.hash_log)
+        self.hash_log = []
+        return (h, terms)
+
+    def hash_equal(self, ha, hb):
+        """formula: the two recorded hashes are equal for every valuation: same concrete residue and
+        pairwise equal hashed numbers (equal rationals hash equal whatever their type: trusted)"""
+        from . import proxies as P
+        if ha[0] != hb[0] or len(ha[1]) != len(hb[1]):
+            return False
+        conj = [P._lift_z(x) == P._lift_z(y) for x, y in zip(ha[1], hb[1])]
+        return _fb(z3.And(True, *conj))
 
     def value_of(self, k):
         """concrete value of a finite-range symbolic integer on this path (splits)"""
